@@ -704,7 +704,8 @@ class EventGenerator:
         Yields:
             An iterator of sax events.
         """
-        if value or var.nillable:
+        # An empty list of token lists has no element to be nil
+        if value or (var.nillable and not var.list_element):
             if value and collections.is_array(value[0]):
                 for val in value:
                     yield from self.convert_element(val, var, namespace)
